@@ -89,6 +89,7 @@ func (_this *Reader) Init(config *configuration.Configuration) {
 func (_this *Reader) SetReader(reader io.Reader) {
 	_this.source = normalizingReader{reader: reader}
 	_this.reader = &_this.source
+	_this.bytesRead = 0
 }
 
 func (_this *Reader) ReadUint8() uint8 {
